@@ -743,6 +743,7 @@ class file_archive(archive):
             os.chdir(root)
             string = "from %s import memo as %s; sys.modules.pop('%s')" % (file, name, file)
             try:
+                sys.path.insert(0, root) # the current directory may not be in path
                 exec(string, globals()) #FIXME: unsafe, potential name conflict
                 memo = globals().get(name, {}) #XXX: error if not found ?
                 globals().pop(name, None)
@@ -750,6 +751,7 @@ class file_archive(archive):
                 memo = {}
                #raise OSError("error reading file archive %s" % filename)
             finally:
+                sys.path.remove(root)
                 os.chdir(curdir)
         return memo
     def __save__(self, memo=None):
